@@ -331,8 +331,125 @@ fn run_witness(ctx: &mut Ctx) {
     }
 }
 
+/// Directed workload (WAT): a socket that imports TWO versions of one interface on the same semver
+/// track (wit-component cannot build such a component: it merges the imports), plugs exporting one
+/// of the versions or both. An export feeds the import of the same name; a compatible name is only
+/// the fallback.
+fn run_two_versions(ctx: &mut Ctx) {
+    let imp = |v: &str| match v {
+        "1.0.0" => "(import \"a:b/c@1.0.0\" (instance (export \"f\" (func))))".to_string(),
+        _ => "(import \"a:b/c@1.1.0\" (instance (export \"f\" (func)) (export \"g\" (func))))".to_string(),
+    };
+    let plug_wat = |versions: &[&str]| {
+        let mut w = String::from("(component (import \"host\" (func $h))");
+        for (i, v) in versions.iter().enumerate() {
+            if *v == "1.0.0" {
+                w.push_str(&format!(" (instance $i{i} (export \"f\" (func $h))) (export \"a:b/c@1.0.0\" (instance $i{i}))"));
+            } else {
+                w.push_str(&format!(" (instance $i{i} (export \"f\" (func $h)) (export \"g\" (func $h))) (export \"a:b/c@1.1.0\" (instance $i{i}))"));
+            }
+        }
+        w.push(')');
+        w
+    };
+    let socket_orders: [&[&str]; 3] = [&["1.0.0", "1.1.0"], &["1.1.0", "1.0.0"], &["1.1.0"]];
+    let plug_sets: [&[&[&str]]; 6] = [&[&["1.0.0"]], &[&["1.1.0"]], &[&["1.0.0"], &["1.1.0"]], &[&["1.1.0"], &["1.0.0"]], &[&["1.0.0", "1.1.0"]], &[&["1.1.0", "1.0.0"]]];
+    let mut k = 0u64;
+    for so in socket_orders {
+        for ps in plug_sets {
+            k += 1;
+            let case = crate::witness::WITNESS_BASE + 500 + k;
+            if !ctx.mine(case) {
+                continue;
+            }
+            ctx.begin(case);
+            let socket_wat = format!("(component {} )", so.iter().map(|v| imp(v)).collect::<Vec<_>>().join(" "));
+            let plug_wats: Vec<String> = ps.iter().map(|p| plug_wat(p)).collect();
+            let input = json!({"socket": socket_wat, "plugs": plug_wats});
+            // expected: exact name first; otherwise the first socket import on the same track
+            let mut want: BTreeMap<String, usize> = BTreeMap::new();
+            let mut ambiguous = false;
+            for (pi, p) in ps.iter().enumerate() {
+                for v in p.iter() {
+                    let name = format!("a:b/c@{v}");
+                    let target = if so.contains(v) { Some(name.clone()) } else { so.first().map(|x| format!("a:b/c@{x}")) };
+                    if let Some(t) = target {
+                        // a 1.0.0 export {f} cannot satisfy a 1.1.0 import {f, g}
+                        if !so.contains(v) && *v == "1.0.0" {
+                            continue;
+                        }
+                        if want.insert(t, pi).is_some() {
+                            ambiguous = true;
+                        }
+                    }
+                }
+            }
+            ctx.eval();
+            let r = catch(|| {
+                let mut g = CompositionGraph::new();
+                let sp = Package::from_bytes("test:socket", None, wat::parse_str(&socket_wat).map_err(|e| e.to_string())?, g.types_mut()).map_err(|e| format!("{e:#}"))?;
+                let sid = g.register_package(sp).map_err(|e| e.to_string())?;
+                let mut pids = Vec::new();
+                for (i, w) in plug_wats.iter().enumerate() {
+                    let pp = Package::from_bytes(&format!("test:plug{i}"), None, wat::parse_str(w).map_err(|e| e.to_string())?, g.types_mut()).map_err(|e| format!("{e:#}"))?;
+                    pids.push(g.register_package(pp).map_err(|e| e.to_string())?);
+                }
+                let res = plug(&mut g, pids.clone(), sid).map_err(|e| format!("plug: {e}"));
+                Ok::<_, String>((g, sid, pids, res))
+            });
+            let (g, sid, pids, res) = match r {
+                Ok(Ok(x)) => x,
+                Ok(Err(e)) => {
+                    ctx.count("harness:two-versions-setup-failed");
+                    ctx.note("last_two_versions_error", json!(e));
+                    continue;
+                }
+                Err(p) => {
+                    ctx.violation(case, &format!("C10:plug-panic:{}", normalize_msg(&p.message)), p.to_string(), input);
+                    continue;
+                }
+            };
+            if ambiguous {
+                ctx.count("two-versions:ambiguous(skipped)");
+                continue;
+            }
+            if want.is_empty() {
+                // nothing can be supplied: plug() must say so
+                if res.is_ok() {
+                    ctx.violation(case, "C10:two-versions:plug-succeeds-with-nothing-to-supply", format!("socket imports {so:?}, plugs export {ps:?}"), input);
+                } else {
+                    ctx.count("two-versions:no-plug-as-expected");
+                }
+                continue;
+            }
+            if let Err(e) = &res {
+                ctx.violation(case, "C10:two-versions:plug-fails", format!("socket imports {so:?}, plugs export {ps:?}: {e}"), input);
+                continue;
+            }
+            let Some(si) = g.node_ids().find(|n| matches!(g[*n].kind(), NodeKind::Instantiation(_)) && g[*n].package() == Some(sid)) else {
+                ctx.violation(case, "C10:socket-instantiation-count", "no socket instantiation".into(), input);
+                continue;
+            };
+            let mut got: BTreeMap<String, usize> = BTreeMap::new();
+            for (arg, src) in g.get_instantiation_arguments(si) {
+                if let Some((inst, _)) = g.get_alias_source(src) {
+                    if let Some(pi) = pids.iter().position(|p| g[inst].package() == Some(*p)) {
+                        got.insert(arg.to_string(), pi);
+                    }
+                }
+            }
+            if got != want {
+                ctx.violation(case, "C10:two-versions:wrong-supplier", format!("socket imports {so:?}, plugs export {ps:?}: arguments {got:?}, expected {want:?} (an export feeds the import of the same name; a compatible name is the fallback)"), input);
+            } else {
+                ctx.count("two-versions:wiring-as-expected");
+            }
+        }
+    }
+}
+
 pub fn run(ctx: &mut Ctx) {
     run_witness(ctx);
+    run_two_versions(ctx);
     let total = ctx.n(20_000, 6_000_000);
     for case in ctx.cases(total) {
         if ctx.out_of_budget() {
@@ -353,7 +470,14 @@ pub fn run(ctx: &mut Ctx) {
         // socket
         let mut shuffled = all_ids.clone();
         rng.shuffle(&mut shuffled);
-        let socket_ifaces = distinct_tracks(&shuffled[..rng.range(1, shuffled.len().min(4))]);
+        // one socket in four may import two versions of one interface on the same track: an export
+        // of the exact name must then win over the compatible one
+        let picked = &shuffled[..rng.range(1, shuffled.len().min(4))];
+        let same_track_twice = rng.chance(1, 4);
+        let socket_ifaces = if same_track_twice { picked.to_vec() } else { distinct_tracks(picked) };
+        if same_track_twice && socket_ifaces.iter().enumerate().any(|(i, a)| socket_ifaces[..i].iter().any(|b| model_compatible(a, b))) {
+            ctx.count("sockets-importing-two-versions-of-one-track");
+        }
         let mut s_imports: Vec<WorldItem> = socket_ifaces.iter().map(|id| WorldItem::Iface { id: id.clone() }).collect();
         let fnames = ["fa", "fb", "fc"];
         let mut socket_fn_variant: BTreeMap<&str, usize> = BTreeMap::new();
